@@ -183,6 +183,8 @@ def site_ok(fid, rc, err):
         return rc == "timeout" or "vr32.c" in err
     if fid == "F26":
         return rc != "timeout"
+    if fid == "F23":       # int overflow of a stage reservation / filter-design assertion; never the FFT set-up, never a hang
+        return rc != "timeout" and "pffft" not in err and (rc in (-11, 139) or any(k in err for k in ("filter.c", "cr-core.c", "cr.c", "poly-fir", "allocation-size-too-big", "fifo.h")))
     return True
 
 
